@@ -38,3 +38,8 @@ def sum_prefix(xs, k, f):
 def count_prefix(xs, k, pred):
     """number of j < k with pred(xs[j])"""
     return sum(1 for j in range(k) if pred(xs[j]))
+
+
+def nat_of_str(s):
+    """the number denoted by a non-empty string of ASCII digits, else -1 (SMT-LIB str.to_int)"""
+    return int(s) if s != '' and all(c in '0123456789' for c in s) else -1
